@@ -1163,9 +1163,41 @@ func checkDurationUnits(r *Report, p *Prog) {
 
 // ---- C15.field-local: post-decode normalisation writes a field only from the same field ----
 
-func checkFieldLocal(r *Report, p *Prog) {
-	rule := "C15.field-local"
-	// the normalisers: module functions (string, string) -> (string, error) called by an UnmarshalXML method
+// checkNormaliserIdentity: the endpoint-location normaliser returns its argument unchanged, or the empty string, on success.
+func checkNormaliserIdentity(r *Report, p *Prog, nf *ssa.Function, rule string) {
+	a := NewAnalysis(p)
+	fc := a.Ctx(nf)
+	for _, ret := range fc.Returns() {
+		if !isNilConst(Resolve(ret.Results[1])) {
+			continue
+		}
+		okR := true
+		var got []string
+		for _, lf := range rootLeaves(Resolve(ret.Results[0]), map[ssa.Value]bool{}) {
+			if lf == ssa.Value(nf.Params[1]) || isEmptyStringConst(lf) {
+				continue
+			}
+			if al, ok := lf.(*ssa.Alloc); ok {
+				// a spilled parameter
+				all := true
+				for _, ref := range *al.Referrers() {
+					if st, ok := ref.(*ssa.Store); ok && st.Addr == ssa.Value(al) && st.Val != ssa.Value(nf.Params[1]) && !isEmptyStringConst(st.Val) {
+						all = false
+					}
+				}
+				if all {
+					continue
+				}
+			}
+			okR = false
+			got = append(got, fc.AP(lf))
+		}
+		r.Check(okR, rule, fmt.Sprintf("%s: a successful result is the location itself or empty [%s]", p.FnName(nf), p.InstrPos(ret)), p.InstrPos(ret), "returns the parameter or \"\"", "returns "+strings.Join(got, ", ")+": an accepted endpoint location is rewritten when metadata is parsed, so re-parsed metadata no longer carries the URL its owner insists on")
+	}
+}
+
+// endpointNormalisers: module functions (string, string) -> (string, error) called (transitively) by an UnmarshalXML method.
+func endpointNormalisers(p *Prog) map[*ssa.Function]bool {
 	norm := map[*ssa.Function]bool{}
 	for _, fn := range p.modFns {
 		if fn.Name() != "UnmarshalXML" || fn.Signature.Recv() == nil || !p.InLibrary(fn) {
@@ -1194,41 +1226,19 @@ func checkFieldLocal(r *Report, p *Prog) {
 			}
 		}
 	}
+	return norm
+}
+
+func checkFieldLocal(r *Report, p *Prog) {
+	rule := "C15.field-local"
+	// the normalisers: module functions (string, string) -> (string, error) called by an UnmarshalXML method
+	norm := endpointNormalisers(p)
 	if len(norm) == 0 {
 		panic(unresolved{"endpoint location normaliser (func(string,string)(string,error) called from UnmarshalXML)"})
 	}
 	for _, nf := range sortedFns(p, norm) {
 		r.Fn(p.FnName(nf))
-		// the normaliser returns its argument unchanged or the empty string
-		a := NewAnalysis(p)
-		fc := a.Ctx(nf)
-		for _, ret := range fc.Returns() {
-			if !isNilConst(Resolve(ret.Results[1])) {
-				continue
-			}
-			okR := true
-			var got []string
-			for _, lf := range rootLeaves(Resolve(ret.Results[0]), map[ssa.Value]bool{}) {
-				if lf == ssa.Value(nf.Params[1]) || isEmptyStringConst(lf) {
-					continue
-				}
-				if al, ok := lf.(*ssa.Alloc); ok {
-					// a spilled parameter
-					all := true
-					for _, ref := range *al.Referrers() {
-						if st, ok := ref.(*ssa.Store); ok && st.Addr == ssa.Value(al) && st.Val != ssa.Value(nf.Params[1]) && !isEmptyStringConst(st.Val) {
-							all = false
-						}
-					}
-					if all {
-						continue
-					}
-				}
-				okR = false
-				got = append(got, fc.AP(lf))
-			}
-			r.Check(okR, rule, fmt.Sprintf("%s: a successful result is the location itself or empty [%s]", p.FnName(nf), p.InstrPos(ret)), p.InstrPos(ret), "returns the parameter or \"\"", "returns "+strings.Join(got, ", ")+": an accepted endpoint location is rewritten")
-		}
+		checkNormaliserIdentity(r, p, nf, rule)
 		// every binding the package itself names keeps its location: the normaliser compares its binding parameter with
 		// each exported binding constant (anything it does not recognise is blanked)
 		{
@@ -1312,7 +1322,11 @@ func checkFieldLocal(r *Report, p *Prog) {
 				}
 			}
 			cons := fmt.Sprintf("%s: normalised %s is stored back into the same field", p.FnName(caller), shortSuffix(src))
-			okD := len(dsts) > 0
+			if len(dsts) == 0 {
+				r.Info(rule, cons, p.InstrPos(c), "the normalised value is only compared, not stored (C14.endpoint judges whether every endpoint attribute is normalised)")
+				continue
+			}
+			okD := true
 			for _, d := range dsts {
 				if d != src {
 					okD = false
